@@ -924,3 +924,40 @@ def descriptor_order(ck, F, rule="GRID-GUARD"):
                   "delete_columns (column_count = %d) can store a descriptor start smaller than column_start for a descriptor that began to the "
                   "right of it: the descriptor lands on its left neighbour (overlapping / unsorted column descriptors)" % k, f, l,
                   sample={"column_count": k, "states_checked": checked})
+
+
+def full_flags(ck, F, rule="FULL-RANGE"):
+    """A range is printed as a whole column / whole row only if *both* corners are absolute and span the sheet: in
+    every place where `stringify` computes `full_row` / `full_column` for a range, the value depends on the absolute
+    flag and the coordinate of both corners (absolute_row1, absolute_row2, row1, row2 -- resp. the column fields).
+    A relative corner is an offset from the formula cell; reading it as an absolute 1 prints A2:A$1048576 as A:A."""
+    NODE = "ironcalc_base::expressions::parser::Node"
+    b = ck.need(F.one, "stringify::stringify")
+    n = 0
+    for flag, want in (("full_row", {"absolute_row1", "absolute_row2", "row1", "row2"}), ("full_column", {"absolute_column1", "absolute_column2", "column1", "column2"})):
+        locs = [l for l in range(len(b.locals)) if b.local_name(l) == flag]
+        for l in locs:
+            defs = [(bi, si) for (bi, si) in b.defs().get(l, []) if si != "t"]
+            live = [(bi, si) for (bi, si) in defs if not (b.blocks[bi]["s"][si]["rv"]["k"] == "use" and b.blocks[bi]["s"][si]["rv"]["o"].get("k") is not None)]
+            if not live:
+                continue
+            n += 1
+            fields = set()
+            for (bi, si) in live:
+                rv = b.blocks[bi]["s"][si]["rv"]
+                from mir import rvalue_operands
+                for o in rvalue_operands(rv):
+                    fields |= {x[2] for x in sources(b, o) if x[0] == "field" and x[1] == NODE}
+                # tests this definition is control dependent on: bool switches that dominate it and whose other edge
+                # reaches a `flag = false` definition
+                falses = [db for (db, ds) in defs if (db, ds) not in live]
+                for d in b.dominators_of(bi):
+                    t = b.term(d)
+                    if t["k"] == "switch" and t["ty"] == "bool" and any(fb in b.reachable_from(d) for fb in falses):
+                        fields |= {x[2] for x in sources(b, t["o"]) if x[0] == "field" and x[1] == NODE}
+            f, ln = b.loc(*live[0])
+            ck.ob(rule, "stringify|%s#%d depends on both corners" % (flag, n), want <= fields,
+                  "`%s` is computed from %s only; it must test %s: a relative corner (an offset) is otherwise mistaken for the absolute "
+                  "first/last row or column and the range is printed as a whole column/row" % (flag, sorted(fields & (want | {"x"})), sorted(want - fields)),
+                  f, ln, sample={"flag": flag, "reads": sorted(fields)})
+    ck.ob(rule, "stringify|full-flag sites", n >= 2, "expected full_row / full_column computations in stringify, found %d" % n, b.file, b.line)
